@@ -2,6 +2,7 @@ package main
 
 import (
 	"fmt"
+	"sort"
 
 	"github.com/RoaringBitmap/roaring/v2"
 	segment "github.com/blevesearch/scorch_segment_api/v2"
@@ -186,7 +187,7 @@ func askIter(c *ctx, mode uint32, ndocs uint64, onehit bool, hits sx.V, runs []i
 	}
 	a := ask(c, sx.L(sx.N(zh.ReqIter), sx.N(uint64(mode)), sx.N(ndocs), sx.Bool(onehit), hits, sx.List(rs)))
 	if code, bad := sx.IsErr(a); bad {
-		must(fmt.Errorf("model rejected iterator request (error %d)", code))
+		mustH(fmt.Errorf("model rejected iterator request (error %d)", code))
 	}
 	return a
 }
@@ -319,7 +320,7 @@ func compareRuns(c *ctx, seg segment.Segment, mode uint32, ndocs uint64, field, 
 }
 
 func checkC07(c *ctx) {
-	c.Rule = "(A) bounded-exhaustive: every postings set P over N documents x chunk sizes {1,2,3,N} x every exclusion set (and nil) x every legal Next/Advance sequence up to length L x detail-flag triples, in memory and mmap-opened (quick: N=4, L=2, strided over (P, chunk size); thorough: N<=6, L=3); (B) random larger instances (up to 60 docs, modes incl. 1025/1026, sequences up to 14 calls) with ReplaceActual by a random subset before the first call; (C) single-hit encodings obtained through merges; (D) preallocation-reuse histories threading one PostingsList and one iterator object through different terms, absent terms, absent fields and segments; each run compared call by call with the extracted iterator machine (Iter.v / Iter1.v); Count, ActualBitmap and DocNum1Hit compared with the non-excluded hits; non-trivial = postings list with >= 2 hits and >= 2 calls"
+	c.Rule = "(A) bounded-exhaustive: every postings set P over N documents x chunk sizes {1,2,3,N} x every exclusion set (and nil) x every legal Next/Advance sequence up to length L x detail-flag triples, in memory and mmap-opened (quick: N=4, L=2, strided over (P, chunk size); thorough: N<=6, L=3); (B) random larger instances (up to 60 docs, modes incl. 1025/1026, sequences up to 14 calls) with ReplaceActual by a random subset before the first call; (C) single-hit encodings obtained through merges; (E) postings lists of 1030 / 1100 / 2100 entries in chunk modes 1025 and 1026 with exclusion sets of 0 / 90 / 700 entries (the live count crosses a multiple of 1024), drained with Next and walked with Next/Advance; (D) preallocation-reuse histories threading one PostingsList and one iterator object through different terms, absent terms, absent fields and segments; each run compared call by call with the extracted iterator machine (Iter.v / Iter1.v); Count, ActualBitmap and DocNum1Hit compared with the non-excluded hits; non-trivial = postings list with >= 2 hits and >= 2 calls"
 	c.Assumptions = append(c.Assumptions, "Advance targets lie strictly beyond the last returned document (API contract, as in the statement)",
 		"ReplaceActual happens before the first Next/Advance, with a subset of the actual bitmap (the only caller pattern)")
 	// ---------- (A) ----------
@@ -335,7 +336,7 @@ func checkC07(c *ctx) {
 			}
 			b := tinyBatch(N, mask, k)
 			spec, err := zh.SpecOf(c.M, b)
-			must(err)
+			mustH(err)
 			sb, _, err := zh.Build(b, uint32(cs))
 			if err != nil {
 				c.Violation("C07 build failed: "+err.Error(), false)
@@ -389,6 +390,9 @@ func checkC07(c *ctx) {
 		}
 	}
 	c.Exhaustive = c.Quick == false
+	if !longLists(c) {
+		return
+	}
 	// ---------- (B) random larger instances, (C) single-hit through merges, (D) reuse ----------
 	rounds := c.n(60, 1500)
 	for i := 0; i < rounds; i++ {
@@ -489,6 +493,66 @@ func checkC07(c *ctx) {
 }
 
 // pickTerm chooses a (field, term) of a content; sometimes an absent term or an absent field.
+// longLists: (E) postings lists of more than 1024 entries in the cardinality-dependent chunk modes
+// (the chunk size is derived from the list's full cardinality by writer and reader alike - also
+// when an exclusion bitmap takes the number of live hits across a multiple of 1024).
+func longLists(c *ctx) bool {
+	cards := []int{1100, 2100, 1030}
+	for _, mode := range []uint32{1025, 1026} {
+		b := zh.GenBoundaryBatch(c.R, 2300, cards, true)
+		e, err := newBuilt(c, b, mode, mode == 1026)
+		if err != nil {
+			c.Violation("C07 build of the long-list batch failed: "+err.Error(), false)
+			return false
+		}
+		for k := range cards {
+			term := fmt.Sprintf("t%d", k)
+			hits := hitsOf(e.spec, "tag", term)
+			var docs []uint64
+			for _, h := range hits.L {
+				docs = append(docs, h.L[0].N)
+			}
+			var runs []iterRun
+			for _, nex := range []int{0, 90, 700} {
+				r := iterRun{exceptNil: nex == 0, f: true, n: true, l: true}
+				perm := append([]uint64(nil), docs...)
+				for j := 0; j < nex && j < len(perm); j++ {
+					q := j + c.R.Intn(len(perm)-j)
+					perm[j], perm[q] = perm[q], perm[j]
+				}
+				if nex > 0 {
+					r.except = append(r.except, perm[:nex]...)
+					sort.Slice(r.except, func(a, b int) bool { return r.except[a] < r.except[b] })
+				}
+				ex := map[uint64]bool{}
+				for _, x := range r.except {
+					ex[x] = true
+				}
+				var live []uint64
+				for _, d := range docs {
+					if !ex[d] {
+						live = append(live, d)
+					}
+				}
+				// a full drain with Next, and a walk mixing Next and Advance
+				full := r
+				full.ops = make([]uint64, len(live)+1)
+				walk := r
+				walk.ops = randSeq(c, live, e.n, 40)
+				runs = append(runs, full, walk)
+			}
+			c.Case(fmt.Sprintf("long-%d-%s", mode, term), true)
+			c.Count("long_list_runs")
+			if !compareRuns(c, e.seg, mode, e.n, "tag", term, hits, runs, nil, fmt.Sprintf("long postings list (%d entries, chunk mode %d, %s segment)", len(docs), mode, e.prov)) {
+				e.close()
+				return false
+			}
+		}
+		e.close()
+	}
+	return true
+}
+
 func pickTerm(c *ctx, spec sx.V) (string, string) {
 	ds := spec.L[pDicts].L
 	switch {
